@@ -161,6 +161,7 @@ func pngOracle(data []byte) string {
 func emitLoad(c *corrCtx, class, name string, data []byte) string {
 	md, _, err, p := safeLoad(loaders[name], bytes.NewReader(data))
 	out := metaOut(md, err, p)
+	retainCheck(c, name, md, len(data))
 	oracle := ""
 	if name == "png" || name == "auto" {
 		oracle = pngOracle(data)
@@ -180,4 +181,42 @@ func (c *corrCtx) direct(key, what string, fields map[string]interface{}) {
 	}
 	n, _ := c.extra["direct_count"].(int)
 	c.extra["direct_count"] = n + 1
+}
+
+// ---- results stay what they were ----------------------------------------------------------
+// The ICC bytes a loader returned are the caller's: they must still be the same bytes after any
+// number of later loads.  The last few results are kept and re-hashed after every load.
+
+type retainedICC struct {
+	md      *meta.Data
+	sum     uint64
+	n       int
+	loader  string
+	fileLen int
+	seq     int
+}
+
+var retained []retainedICC
+var retainSeq int
+
+func retainCheck(c *corrCtx, loader string, md *meta.Data, fileLen int) {
+	retainSeq++
+	for _, e := range retained {
+		d, err := e.md.ICCProfileData()
+		if err != nil || len(d) != e.n || fnvBytes(d) != e.sum {
+			c.direct(fmt.Sprintf("%s/retained/%s/len%d", c.id, e.loader, e.n), "ICC bytes returned by an earlier load changed after a later load (the result aliases recycled storage)",
+				map[string]interface{}{"loader": e.loader, "profile_len": e.n, "file_len": e.fileLen, "loads_later": retainSeq - e.seq, "later_loader": loader, "later_file_len": fileLen})
+		}
+	}
+	if md == nil {
+		return
+	}
+	d, err := md.ICCProfileData()
+	if err != nil || len(d) == 0 {
+		return
+	}
+	retained = append(retained, retainedICC{md, fnvBytes(d), len(d), loader, fileLen, retainSeq})
+	if len(retained) > 5 {
+		retained = retained[1:]
+	}
 }
